@@ -615,7 +615,7 @@ func c09PolygonAnswers(d *c09Dump, p *s2.Polygon) {
 	}
 	d.f(p.Area())
 	// relation queries: loops against fixed other loops, the polygon against fixed other polygons
-	for i := 0; i < p.NumLoops() && i < 4; i++ {
+	for i := 0; i < p.NumLoops() && i < 2; i++ {
 		l := p.Loop(i)
 		others := c09Others(l)
 		c09LoopRelations(d, l, others)
